@@ -206,7 +206,9 @@ class _HelperCompares(Client):
         self.P, self.pid, self.handles = prog, pid, handles
 
     def should_inline(self, func, call, ctx):
-        return False
+        # a private predicate of the class that holds the comparison (`_opened_by_another_process()`) is part of the helper
+        return func.cls is not None and not func.cls.is_external and func.name.startswith("_") and not func.name.startswith("__") \
+            and func.name not in ("open", "close")
 
     def refine(self, test, state, ctx):
         cmpd, notopen = state
@@ -225,6 +227,20 @@ class _HelperCompares(Client):
             if any(is_call_to(self.P, ctx.func, x, "os.getpid") or (isinstance(x, ast.Name) and x.id in pid_locals) for x in (l, r)):
                 return ((True, notopen),), ((True, notopen),)
         return (state,), (state,)
+
+
+    def event(self, kind, node, state, ctx):
+        # the comparison may be evaluated as a value (`return os.getpid() != self._pid`, `other = os.getpid() != ...`) and tested
+        # by the caller: evaluating it is what counts
+        cmpd, notopen = state
+        val = node.value if kind == "return" and node is not None else (assigned_value(node) if kind == "store" else None)
+        if val is not None and not cmpd:
+            for c in ast.walk(val):
+                if isinstance(c, ast.Compare) and len(c.ops) == 1 and isinstance(c.ops[0], (ast.Eq, ast.NotEq, ast.Is, ast.IsNot)) \
+                        and any(is_call_to(self.P, ctx.func, x, "os.getpid") for x in (c.left, c.comparators[0])) \
+                        and any(dotted(x) and dotted(x)[-1] == self.pid for x in (c.left, c.comparators[0])):
+                    return ((True, notopen),)
+        return (state,)
 
 
 class _HelperOrder(Client):
